@@ -32,6 +32,7 @@ var ndHarnesses = map[string]func(){
 	"Harness_C02":        Harness_C02,
 	"Harness_C19_K2":     Harness_C19_K2,
 	"Harness_C02_Switch": Harness_C02_Switch,
+	"Harness_C19_K2b":    Harness_C19_K2b,
 }
 
 type c02Prod struct {
